@@ -453,6 +453,21 @@ Theorem pinned_agrees_elsewhere : forall p isb kind lens max ctx, 2 * ctx < W ->
 Proof. exact pinned_agrees_elsewhere_l. Qed.
 Print Assumptions pinned_agrees_elsewhere.
 
+(** THE BOUND ON THE TEXT IS NEEDED.  For a CharString of 2^63 + 10 one-byte characters (a single run; Rust
+    has no such str), max = 2^63 + 5, ctx = 0, the unbounded loop returns two windows, while the second
+    iteration of the machine loop computes 2^63+5 + 2^63+5: a fault with overflow checks, and without
+    them the wrapped values trip the range assertion.  (Stated on the loop: a list of that many cluster
+    lengths cannot be written down; the run-length form can.) *)
+Theorem isize_bound_needed :
+  exists cs max ctx,
+    c_rle cs = [(1, c_len cs)] /\ c_blen cs = c_len cs /\ c_len cs < W /\ ISIZE_MAX < c_blen cs
+    /\ 2 * ctx < max /\ max < W
+    /\ (exists wins, char_loop 3 cs max ctx 0 = Ok wins /\ length wins = 2%nat)
+    /\ mchar_loop Checked (fun _ => true) 3 cs max ctx 0 = Fault 15
+    /\ mchar_loop Wrapping (fun _ => true) 3 cs max ctx 0 = Panic 4.
+Proof. exact isize_bound_needed_l. Qed.
+Print Assumptions isize_bound_needed.
+
 (** Non-vacuity.  "aä中😀ab" + "e U+0301" (1,2,3,4,1,1,3 bytes): the premises hold; byte windows max 7
     ctx 1 in the checked profile: three windows; max = 2^64-1 with ctx = 2^63-1 is a VALID configuration
     (2*ctx = 2^64-2 < max) and gives one window in both profiles; max = 2^64-2 is the error; a slice
